@@ -51,31 +51,32 @@ func intsStr(l []int) string {
 
 // run holds one history being executed against implementation and model.
 type run struct {
-	w            *world
-	drv          *hx.Driver
-	prev         map[string]string // worker -> task assignments of the previous dump
-	last         string            // last canonical dump
-	fail         *failure
-	flags        map[string]bool
-	steps        int
-	tie          bool
-	streams      map[int]*streamMon // C02 monitor state per client
-	doneTask     map[int]string     // op name -> final payload "code/tok" (C03 same-final, C01 no restart)
-	hist         *hx.Result
-	prevSt       *scheduler.VerifState  // state before the current segment (for per-decision checks)
-	noModel      bool                   // monitor-only mode: used to search for a failing input after a mismatch
-	onlyProp     string                 // when set, findings and structural invariants of other properties do not end the run
-	syncRet      map[string]int64       // worker -> fake-clock time its last Synchronize call returned
-	syncActive   map[string]bool        // workers that were inside Synchronize at the end of the previous segment
-	primary      string                 // op line of the segment being judged
-	issues       map[string]int         // task (lowest op) -> times its current worker was told to execute it
-	issuedTo     map[string]string      // task (lowest op) -> that worker
-	released     bool                   // calls suspended by a hold continued in the segment being judged: events cannot be attributed to the primary op alone
-	justReleased map[string]delayedSync // delayed Synchronize calls that reached the scheduler in the segment being judged
-	selHeld      bool                   // an Execute call is parked inside Select (hold=3); only another Execute may follow
-	termSeen     map[string]bool        // workers observed with the terminating mark (C05.terminating_monotone)
-	holdThis     bool                   // the op being applied keeps woken-up workers suspended before they re-take the scheduler lock
-	pending      *failure               // a model/implementation disagreement that does not stop the history: a violation found later in the same history takes precedence (see finish)
+	w               *world
+	drv             *hx.Driver
+	prev            map[string]string // worker -> task assignments of the previous dump
+	last            string            // last canonical dump
+	fail            *failure
+	flags           map[string]bool
+	steps           int
+	tie             bool
+	streams         map[int]*streamMon // C02 monitor state per client
+	doneTask        map[int]string     // op name -> final payload "code/tok" (C03 same-final, C01 no restart)
+	hist            *hx.Result
+	prevSt          *scheduler.VerifState  // state before the current segment (for per-decision checks)
+	noModel         bool                   // monitor-only mode: used to search for a failing input after a mismatch
+	onlyProp        string                 // when set, findings and structural invariants of other properties do not end the run
+	syncRet         map[string]int64       // worker -> fake-clock time its last Synchronize call returned
+	syncActive      map[string]bool        // workers that were inside Synchronize at the end of the previous segment
+	primary         string                 // op line of the segment being judged
+	issues          map[string]int         // task (lowest op) -> times its current worker was told to execute it
+	issuedTo        map[string]string      // task (lowest op) -> that worker
+	released        bool                   // calls suspended by a hold continued in the segment being judged: events cannot be attributed to the primary op alone
+	justReleased    map[string]delayedSync // delayed Synchronize calls that reached the scheduler in the segment being judged
+	pendingReleased bool                   // a hold was ended outside window(): the next segment is a release window
+	selHeld         bool                   // an Execute call is parked inside Select (hold=3); only another Execute may follow
+	termSeen        map[string]bool        // workers observed with the terminating mark (C05.terminating_monotone)
+	holdThis        bool                   // the op being applied keeps woken-up workers suspended before they re-take the scheduler lock
+	pending         *failure               // a model/implementation disagreement that does not stop the history: a violation found later in the same history takes precedence (see finish)
 }
 
 // finish turns a pending disagreement into the history's failure when nothing worse was found.
@@ -253,8 +254,12 @@ func (r *run) window(primary string, an string) {
 		// were still on their way back to the scheduler lock; let those continue now
 		r.w.clk.release()
 		synctest.Wait()
+		r.pendingReleased = true
+	}
+	if r.pendingReleased {
 		r.justReleased, r.w.delayed = r.w.delayed, nil
 		r.released = true
+		r.pendingReleased = false
 	} else {
 		r.justReleased = nil
 		r.released = false
@@ -470,6 +475,7 @@ func (r *run) apply(line string) {
 		// nothing but another Execute is run against a scheduler whose lock is held by a selection
 		r.selHeld = false
 		w.clk.release()
+		r.pendingReleased = true
 		r.window(fmt.Sprintf("touch %d", now), an)
 		if r.fail != nil || r.tie {
 			return
@@ -531,10 +537,26 @@ func (r *run) apply(line string) {
 			}
 			r.selHeld = false
 			w.clk.release()
+			r.pendingReleased = true
 			r.window(fmt.Sprintf("exec %d %d %d %d %s %s %d %s %s", now, c, d, w.dkey(a[2], d), b01(dnc), a[2], plat, a[3], a[4]), an)
 			return
 		}
 		slow := w.slowSelectNext
+		if slow {
+			// run whatever is due at this instant first: a cleanup performed when the call enters the
+			// scheduler would wake other calls, which then wait for the lock held across the selection
+			go func() {
+				defer w.guard("ListPlatformQueues")
+				w.bq.ListPlatformQueues(context.Background(), &emptypb.Empty{})
+			}()
+			keep := r.holdThis
+			r.window(fmt.Sprintf("touch %d", now), an)
+			r.holdThis = keep
+			if r.fail != nil || r.tie {
+				return
+			}
+			w.slowSelectNext = true
+		}
 		w.startExecute(c, d, dnc, ints(a[2]), plat, a[3], atoi(a[4]))
 		if slow {
 			// no segment is judged while the selection is in progress: the scheduler lock is held
